@@ -372,7 +372,7 @@ class C06(Engine):
 		'version upgrade) between two judged runs')
 	quick_runs = 60
 	thorough_runs = 2000
-	quick_budget_s = 90.0
+	quick_budget_s = 120.0
 	thorough_budget_s = 1700.0
 	components_real = ['Runner.can_transpile/try_load_meta_header/output_filepath/fetch_output_path', 'MetaHeader', 'module_meta_factory', 'Writer (incl. PermissionError retry)', 'Py2Cpp entrypoint header rendering', 'the whole pipeline behind them with a healthy cache']
 	components_stubbed = Engine.components_stubbed + ['builtins.open interposed (trace; injected EACCES on output files)', 'time.sleep virtual', 'Versions.app / Versions.py2cpp patched in the child to model a tool upgrade']
